@@ -658,6 +658,18 @@ impl<Writer: Write> Mp4Writer<Writer> {
         if self.finalized {
             return Err(io::Error::other("mp4 writer already finalised"));
         }
+        // The visual sample entry stores width and height as 16-bit values. Larger
+        // dimensions cannot be represented: report them instead of tripping the
+        // always-on width/height invariants (which would panic) further down.
+        if video.width > u32::from(u16::MAX) || video.height > u32::from(u16::MAX) {
+            return Err(io::Error::new(
+                io::ErrorKind::InvalidInput,
+                format!(
+                    "video dimensions {}x{} do not fit the 16-bit sample entry fields",
+                    video.width, video.height
+                ),
+            ));
+        }
         self.finalized = true;
 
         let video_config = self
